@@ -11,7 +11,7 @@ RULE = ("Hypothesis draws a crystal (small catalogue structures and generated re
         "without site vector bases), the smallest percolating vacancy network, Nthermo in {1,2} and random vacancy, solute, binding and "
         "omega0/omega1/omega2 transition-state free energies.  Oracle: the exact one-solute/one-vacancy Markov chain on three periodic "
         "supercells (brute-force sparse linear algebra on every state, no symmetry), extrapolated in 1/N to infinite dilution; L0vv is "
-        "compared with the lone-vacancy full-space diffusivity.  Tolerance max(5 x extrapolation error bar, 3e-4 x scale); a larger difference is accepted only if it shrinks by 20% or more when the library is re-evaluated with the denser k-mesh NGFmax=8 (integration_limited).  Non-trivial: "
+        "compared with the lone-vacancy full-space diffusivity.  Tolerance max(5 x extrapolation error bar, a quarter of the correction the extrapolation applied to the largest cell, 3e-4 x scale); a larger difference is accepted only if it shrinks by 20% or more when the library is re-evaluated with the denser k-mesh NGFmax=8 (integration_limited).  Non-trivial: "
         "a binding energy or transition-state deviation > 0.1 kT and Lss differs from the tracer value; distinct by (crystal, network, Nthermo, data).")
 ASSUMPTIONS = ["states and transitions are classified through the calculator's own lookup (thermo.starindex, kinetic.stateindex, om1/om2 lists); the "
                "classification itself is the subject of C24/C26",
@@ -133,7 +133,7 @@ def check(case, budget=12000):
     o = dict(o)
     o["Lsv"] = np.asarray(o["Lsv"]).T
     for nm, lib in (("Lss", Lss), ("Lsv", Lsv), ("L1vv", L1vv)):
-        tol = max(5 * o[nm + "_err"], 3e-4 * scale * pmax)
+        tol = max(5 * o[nm + "_err"], 0.25 * o[nm + "_step"], 3e-4 * scale * pmax)
         err = np.abs(np.asarray(lib) - o[nm]).max()
         worst[nm] = (err / scale, tol / scale)
         if err > tol:
